@@ -22,7 +22,7 @@ one() {
   local props; props=$(python3 -c "import json;m=json.load(open('$VERIF/seeded/$name/meta.json'));print(' '.join(m.get('expected_checks') or list(m.get('caught_by',{}).keys())))")
   for p in $props; do
     local log="$dir/check-$p.log"
-    env VERIF_REPO="$dir" VERIF_OUT="$dir/.verif-out" VERIF_WORKERS=${VERIF_WORKERS:-4} timeout -k 5 1500 "$VERIF/check" "$p" quick >"$log" 2>&1; local rc=$?
+    env VERIF_REPO="$dir" VERIF_OUT="$dir/.verif-out" VERIF_WORKERS=${VERIF_WORKERS:-4} timeout -k 5 2400 "$VERIF/check" "$p" quick >"$log" 2>&1; local rc=$?
     [ $rc -ge 124 ] && pkill -9 -f "$dir/.verif-target" 2>/dev/null
     local oracle; oracle=$(grep -o "oracle=[A-Za-z0-9_.-]*" "$log" | sort -u | tr '\n' ' ')
     local verdict=MISSED; [ $rc -eq 1 ] && verdict=caught; [ $rc -ge 2 ] && verdict=harness-error
